@@ -37,7 +37,7 @@ m.write('C09', 'A session with four conforming clients always runs to completion
  (E, 'ex_passed_out_completes', 'C09_example_passed_out_session_completes', None),
  (E, 'ex_played_model_is_the_real_run', 'C09_example_model_is_the_real_run', None),
 ])
-m.write('C13', 'An aborted session still leaves a well-formed log of the completed boards.', IMP.replace('Proofs.SessionExamples.', 'Proofs.SessionExamples Model.Conform Proofs.SessionConform Proofs.SessionPassOut Proofs.Wire Model.Json Gen.JsonFraming Proofs.C13Cor Proofs.SessionAbort Proofs.SessionAdmission Proofs.SessionArrivals Proofs.SessionAbortArrivals.'), '''(* FULL STATEMENT, PROVED (Proofs/SessionAbort.v for clients connecting in the order N, E, S, W; Proofs/SessionAbortArrivals.v for EVERY
+m.write('C13', 'An aborted session still leaves a well-formed log of the completed boards.', IMP.replace('Proofs.SessionExamples.', 'Proofs.SessionExamples Model.Conform Proofs.SessionConform Proofs.SessionPassOut Proofs.Wire Model.Json Model.JsonFramingHand Proofs.C13Cor Proofs.JsonPins Proofs.SessionAbort Proofs.SessionAdmission Proofs.SessionArrivals Proofs.SessionAbortArrivals.'), '''(* FULL STATEMENT, PROVED (Proofs/SessionAbort.v for clients connecting in the order N, E, S, W; Proofs/SessionAbortArrivals.v for EVERY
    request list that fills the table, by the network embedding of Proofs/KahnEmbed.v): if the seated clients
    conform on the first a boards and board a+1 goes wrong at ANY position - a call text that does not parse, a call that parses
    but is illegal, a card text that does not parse, a card the table refuses - by whichever seat is on turn, then some schedule
@@ -48,6 +48,7 @@ m.write('C13', 'An aborted session still leaves a well-formed log of the complet
  common('C13') + [
  (S, 'log_always_wellformed', 'C13_log_always_wellformed', 'for every input (conforming or not), every interrupt point and EVERY schedule: at every moment the file content is open ; record* [; close]'),
  (S, 'log_complete_when_main_ends', 'C13_abort_log_complete', 'and once the main thread has ended - returned or raised, wherever and for whatever reason - the log is complete: never opened, or open ; record* ; close. Records are single writes, so each listed board is whole'),
+ ('Proofs/JsonPins.v', 'framing_pinned', 'C13_source_framing_is_the_modelled_one', 'the literals the writer puts around and between the records, re-read from writer.py on this run, are the ones these theorems use'),
  ('Proofs/C13Cor.v', 'aborted_log_parses', 'C13_aborted_log_parses', 'and such a file - written with the literals regenerated from writer.py - is one JSON document whose records are exactly those'),
  ('Proofs/SessionAbort.v', 'abandoned_session_log', 'C13_abandoned_session_log', 'FULL, symbolic and unbounded: any abort point (board, position, seat) and each kind of offending action'),
  ('Proofs/SessionAbort.v', 'abandoned_session_bounded', 'C13_abandoned_session_bounded', 'one final state, every schedule bounded, every maximal schedule ends in it'),
